@@ -11,7 +11,7 @@ func VH_C17_BanGate_sym() {
 	srv.Logger = vLogger()
 	vStartOutbox(srv)
 	r.srv = srv
-	r.acct = &vAcctStub{exists: true, account: Account{Login: "guest", Name: "g", Password: "H:"}}
+	r.acct = &vAcctStub{exists: true, account: Account{Login: "guest", Name: "g", Password: HashAndSalt(nil)}}
 	srv.AccountManager = r.acct
 	r.ban = &vBanStub{banned: mode != 0}
 	var until time.Time
